@@ -22,9 +22,9 @@ Pipeline (see `norm`):
   ruleEmpty      rule 3    `<>`, `::<>`, `for<>`, empty `where`, empty bound list
   rulePipe       rule 6    leading `|` of a match arm
   ruleBlock      rules 5,6 `=> { e }` → `=> e,` ; `=> {..}` `,`? → `=> {..},` ; `|..| { e }` → `|..| e`
-  ruleSemi       rule 6    `;` after `loop {}`/`while .. {}`/`for .. {}`-like statement blocks — see there
-  ruleSep        rule 1    `,` / `;` directly before a closer
-  ruleParen      rule 2    `((e))` → `(e)`                     (only remove_nested_parens)
+  semiSep        rules 1,6 empty statements; the `;` of a `return`/`break`/`continue` statement before `}`
+  ruleComma      rule 1    `,` directly before a closer (not the `,` of a 1-tuple) or after `}`
+  ruleParen      rule 2    `((e))` → `(e)`, `f((e))` → `f(e)`, not `f((a, b))`   (only remove_nested_parens)
 -/
 namespace RF.Tok
 
@@ -236,9 +236,19 @@ def concatWords : List (List Char) → List Char
 
 def docMarker (inner : Bool) : List Char := ['/', '/', if inner then '!' else '/']
 
+/-- Rule 1 inside the code of a doc comment (`format_code_in_doc_comments`; the text has no white
+space left): a `,` directly before a closing delimiter or `>` is dropped. -/
+def dropTrailComma : List Char → List Char
+  | [] => []
+  | [c] => [c]
+  | c :: d :: r =>
+    if c == ',' && (d == ')' || d == ']' || d == '}' || d == '>') then dropTrailComma (d :: r)
+    else c :: dropTrailComma (d :: r)
+
 /-- the doc token for a run of doc comments of one kind whose words (reversed) are `acc` -/
 def docFlush (code inner : Bool) (acc : List (List Char)) : Tok :=
-  ⟨['d'], docMarker inner ++ ' ' :: (if code then concatWords acc.reverse else joinWords acc.reverse)⟩
+  ⟨['d'], docMarker inner ++ ' ' ::
+    (if code then dropTrailComma (concatWords acc.reverse) else joinWords acc.reverse)⟩
 
 /-- Rule 10 (re-flow): a run of doc comments of the same kind (outer / inner) is ONE doc comment
 whose text is the sequence of its words (with `code`: its non-blank characters).  `cur`: the run
@@ -903,15 +913,110 @@ def ruleBlock : Rule := fun enc _ p2 p1 t rest =>
     some { out := [], close := some [], tag := 1 }
   else none
 
-/-- Rules 1 and 6 for `;`: an empty statement (`;` directly after `{`, or followed by another
-`;`) and a `;` directly before `}`. -/
-def ruleSemi : Rule := fun _ lo _ _ t rest =>
-  if t.isP ';' && (headIs (fun x => x.isC '}' || x.isP ';') rest || lo.isO '{') then drop_ else none
+def kwReturn : List Char := ['r','e','t','u','r','n']
+def kwBreak : List Char := ['b','r','e','a','k']
+def kwContinue : List Char := ['c','o','n','t','i','n','u','e']
 
-/-- Rule 1 for `,`: directly before a closer or before the `>` of a generic list.
+/-- `return` / `break` / `continue`: the statements after which `trailing_semicolon` adds or removes `;` -/
+def isJumpKw (t : Tok) : Bool := t.isI kwReturn || t.isI kwBreak || t.isI kwContinue
+
+/-- a token that can begin a statement after a `}` (anything but punctuation other than `#`) -/
+def isWordTok (t : Tok) : Bool :=
+  t.cls == ['i'] || t.cls == ['r'] || t.cls == ['l'] || t.isDoc || t.isP '#' ||
+  (match t.cls with | 'L' :: _ => true | _ => false)
+
+def kwMacroRules : List Char := ['m','a','c','r','o','_','r','u','l','e','s']
+def kwLazyStatic : List Char := ['l','a','z','y','_','s','t','a','t','i','c']
+
+def isLoopKw (t : Tok) : Bool := t.isI kwLoop || t.isI kwWhile || t.isI kwFor
+
+/-- the per-statement flags of `semiSep`: `cur` the statement began with a jump keyword; `lp` it
+began with `loop` / `while` / `for` (possibly labelled) and its body has not been seen yet -/
+structure StmtSt where
+  cur : Bool := false
+  lp : Bool := false
+
+/-- statement-start bookkeeping: `start` 0 inside a statement, 1 at its start (after `{` or `;`),
+2 after `}` (punctuation continues the expression, a word begins a new statement), 3 after a label
+at the start, 4 after the `:` of that label.  Returns the flags and the next `start` (before
+brackets and `;` have their say). -/
+def stmtStep (s : StmtSt) (start : Nat) (t : Tok) : StmtSt × Nat :=
+  if (start == 1 || start == 2) && t.cls == ['l'] then ({}, 3)
+  else if start == 3 then (if t.isP ':' then ({}, 4) else ({}, 0))
+  else if start == 1 || start == 4 then ({ cur := isJumpKw t, lp := isLoopKw t }, 0)
+  else if start == 2 then
+    (if isWordTok t then ({ cur := isJumpKw t, lp := isLoopKw t }, 0) else (s, 0))
+  else (s, 0)
+
+/-- Rules 1 and 6 for `;`: an empty statement (`;` directly after `{`, or followed by another `;`),
+the `;` that ends a `return` / `break` / `continue` statement directly before `}`
+(`trailing_semicolon`), the `;` directly after the body of a `loop` / `while` / `for` STATEMENT
+(`semicolon_for_stmt` drops it), and the `;` after the last rule of a `macro_rules!` definition or
+the last item of a `lazy_static!` call (the two macro bodies the formatter re-punctuates).  Any other
+`;` before `}` is kept: `{ f(); }` and `{ f() }` differ.
+`st`: one entry per open bracket (flags of the surroundings, `md` of the surroundings, the bracket
+is a loop body); `md`: directly inside the body of a `macro_rules!` definition / `lazy_static!`
+call; `al`: the previous token closed a loop body; `pend`: 1 after `macro_rules`, 2 after
+`macro_rules !` (and the name); `lo`: last token emitted. -/
+def semiSep : List (StmtSt × Bool × Bool) → StmtSt → Bool → Bool → Nat → Nat → Tok → List Tok → List Tok
+  | _, _, _, _, _, _, _, [] => []
+  | st, s, md, al, start, pend, lo, t :: ts =>
+    let (s, start') := stmtStep s start t
+    let pend' := if t.isI kwMacroRules || t.isI kwLazyStatic then 1
+      else if pend == 1 && t.isP '!' then 2
+      else if pend == 2 && (t.isP '$' || t.cls == ['i'] || t.cls == ['r']) then 2
+      else 0
+    if t.isOpen then
+      t :: semiSep ((if t.isO '{' then { s with lp := false } else s, md, t.isO '{' && s.lp) :: st) {} (pend == 2) false
+        (if t.isO '{' then 1 else 0) 0 t ts
+    else if t.isClose then
+      (match st with
+       | (s', m, body) :: st' => t :: semiSep st' s' m body (if t.isC '}' then 2 else 0) 0 t ts
+       | [] => t :: semiSep [] {} false false (if t.isC '}' then 2 else 0) 0 t ts)
+    else if t.isP ';' then
+      (if headIs (·.isP ';') ts || lo.isO '{' || al || (s.cur && headIs (·.isC '}') ts) || (md && headIs (·.isClose) ts) then
+         semiSep st {} md false 1 0 lo ts
+       else t :: semiSep st {} md false 1 0 t ts)
+    else t :: semiSep st s md false start' pend' t ts
+
+def isTupleKw (t : Tok) : Bool :=
+  t.isI ['l','e','t'] || t.isI kwIn || t.isI kwReturn || t.isI ['m','a','t','c','h'] || t.isI ['i','f'] ||
+  t.isI kwWhile || t.isI kwFor || t.isI kwAs || t.isI ['e','l','s','e'] || t.isI kwBreak ||
+  t.isI ['y','i','e','l','d'] || t.isI ['m','o','v','e']
+
+/-- a `(` after `p1` is not an argument list (so `(x,)` after it is a 1-tuple): `p1` is an opener, the
+start of input, punctuation other than `>` `?` `!`, or a keyword that is followed by an expression /
+pattern / type -/
+def tupleStart1 (p1 : Tok) : Bool :=
+  p1.isOpen || p1.cls == [] || (p1.cls == ['p'] && !p1.isP '>' && !p1.isP '?' && !p1.isP '!') || isTupleKw p1
+
+/-- the same, seeing `=>` and `->` as well -/
+def tupleStart (p1 p2 : Tok) : Bool :=
+  tupleStart1 p1 || (p1.isP '>' && (p2.isP '=' || p2.isP '-'))
+
+/-- `ts` begins just after `(`: the group's first top-level `,` is directly before the closer, i.e.
+the group is `( x , )` -/
+def oneTuple : Nat → List Tok → Bool
+  | _, [] => false
+  | d, t :: ts =>
+    if t.isOpen then oneTuple (d + 1) ts
+    else if t.isClose then (match d with | 0 => false | d' + 1 => oneTuple d' ts)
+    else if d == 0 && t.isP ',' then headIs (·.isClose) ts
+    else oneTuple d ts
+
+/-- `( .. , )`: the rest pattern with a trailing comma (the same pattern as `(..)`) -/
+def restPat : List Tok → Bool
+  | a :: b :: c :: _ => a.isP '.' && b.isP '.' && c.isP ','
+  | _ => false
+
+/-- Rule 1 for `,`: directly before a closer or before the `>` of a generic list — except the `,` of
+a 1-tuple `(x,)` (tag 3: a parenthesis that is not an argument list and holds exactly that one
+top-level comma), which is part of the program.
 Rule 6: `,` directly after `}` (block-bodied match arm). -/
-def ruleComma : Rule := fun _ _ _ p1 t rest =>
-  if t.isP ',' && (headIs (fun x => x.isClose || x.isP '>') rest || p1.isC '}') then drop_ else none
+def ruleComma : Rule := fun enc _ p2 p1 t rest =>
+  if t.isO '(' && tupleStart p1 p2 && oneTuple 0 rest && !restPat rest then some { out := [t], tag := 3 }
+  else if t.isP ',' && enc == 3 && headIs (·.isClose) rest then none
+  else if t.isP ',' && (headIs (fun x => x.isClose || x.isP '>') rest || p1.isC '}') then drop_ else none
 
 /-- an identifier that cannot end an expression (so a `|` after it starts a closure) -/
 def isPrefixKw (t : Tok) : Bool :=
@@ -941,21 +1046,26 @@ def closureSep : Nat → Nat → Tok → List Tok → List Tok
     else t :: closureSep 0 0 t ts
 
 /-- Rule 1 in where clauses: the `,` after the last predicate (before `{`, `;` or `=`).
-`w`: inside a where clause, at bracket depth `d` relative to it. -/
-def whereSep : Bool → Nat → List Tok → List Tok
-  | _, _, [] => []
-  | w, d, t :: ts =>
-    if t.isI kwWhere then t :: whereSep true 0 ts
+`w`: inside a where clause, at bracket depth `d` relative to it and (at `d = 0`) inside `a` angle
+brackets (`Vector<T, { SIZE }>: Tr` — a `{` inside a generic argument list does not end the
+clause); `pm`: the previous token is `-` (the `>` of `->` closes nothing). -/
+def whereSep : Bool → Nat → Nat → Bool → List Tok → List Tok
+  | _, _, _, _, [] => []
+  | w, d, a, pm, t :: ts =>
+    if t.isI kwWhere then t :: whereSep true 0 0 false ts
     else if w then
       if t.isOpen then
-        (if d == 0 && t.isO '{' then t :: whereSep false 0 ts else t :: whereSep true (d + 1) ts)
+        (if d == 0 && a == 0 && t.isO '{' then t :: whereSep false 0 0 false ts
+         else t :: whereSep true (d + 1) a false ts)
       else if t.isClose then
-        (match d with | 0 => t :: whereSep false 0 ts | d' + 1 => t :: whereSep true d' ts)
-      else if d == 0 && t.isP ';' then t :: whereSep false 0 ts
-      else if d == 0 && t.isP ',' && headIs (fun x => x.isO '{' || x.isP ';' || x.isP '=') ts then
-        whereSep true 0 ts
-      else t :: whereSep true d ts
-    else t :: whereSep false 0 ts
+        (match d with | 0 => t :: whereSep false 0 0 false ts | d' + 1 => t :: whereSep true d' a false ts)
+      else if d == 0 && t.isP ';' then t :: whereSep false 0 0 false ts
+      else if d == 0 && t.isP '<' then t :: whereSep true 0 (a + 1) false ts
+      else if d == 0 && t.isP '>' && !pm then t :: whereSep true 0 (a - 1) false ts
+      else if d == 0 && a == 0 && t.isP ',' && headIs (fun x => x.isO '{' || x.isP ';' || x.isP '=') ts then
+        whereSep true 0 0 false ts
+      else t :: whereSep true d a (t.isP '-') ts
+    else t :: whereSep false 0 0 false ts
 
 def isWild (t : Tok) : Bool := t.isI ['_']
 
@@ -1011,12 +1121,35 @@ def ruleLitParen : Rule := fun _ _ _ p1 t rest =>
      | _ => none)
   else none
 
-/-- Rule 2: `((e))` → `(e)`. -/
-def ruleParen : Rule := fun _ _ _ p1 t rest =>
-  if t.isO '(' && p1.isO '(' then
-    (match afterGroup 0 rest with
-     | some (c :: _) => if c.isC ')' then some { out := [], close := some [] } else none
-     | _ => none)
+/-- `ts` begins just after an opener: is there a `,` at depth 0 before the matching closer? -/
+def groupHasComma : Nat → List Tok → Bool
+  | _, [] => false
+  | d, t :: ts =>
+    if t.isOpen then groupHasComma (d + 1) ts
+    else if t.isClose then (match d with | 0 => false | d' + 1 => groupHasComma d' ts)
+    else if d == 0 && t.isP ',' then true
+    else groupHasComma d ts
+
+/-- `rest` begins just after a `(`: that group holds exactly one parenthesis pair and nothing else -/
+def solePair (rest : List Tok) : Bool :=
+  match rest with
+  | o :: r => o.isO '(' && (match afterGroup 0 r with | some (c :: _) => c.isC ')' | _ => false)
+  | [] => false
+
+/-- Rule 2: of a chain of directly nested parenthesis pairs `(((X)))` one pair is kept — except
+that the argument list of a call is never one of them: `f((a))` → `f(a)`, but `f((a, b))` and `f(())`
+keep the inner pair (a tuple / unit argument).  Tags: 1 the pair is an argument list (`p1` can end an
+expression); 2 the pair is a kept plain parenthesis; 3 the pair was dropped, the chain hangs off an
+argument list and no pair of it has been kept yet. -/
+def ruleParen : Rule := fun enc _ _ p1 t rest =>
+  if t.isO '(' then
+    (if p1.isO '(' && (match afterGroup 0 rest with | some (c :: _) => c.isC ')' | _ => false) then
+      -- this pair is all its parent holds
+      (if enc == 2 then some { out := [], close := some [], tag := 2 }
+       else if solePair rest then some { out := [], close := some [], tag := 3 }
+       else if headIs (·.isClose) rest || groupHasComma 0 rest then some { out := [t], tag := 2 }
+       else some { out := [], close := some [] })
+     else some { out := [t], tag := if tupleStart1 p1 then 2 else 1 })
   else none
 
 /-- Rule 13: `a: a` → `a` (an ident, `:`, the same ident, then `,` or `}`). -/
@@ -1049,11 +1182,11 @@ def post (cfg : Cfg) (ts : List Tok) : List Tok :=
   let ts := runRule ruleVec ts
   let ts := runRule ruleAbi ts
   let ts := runRule ruleVis ts
-  let ts := whereSep false 0 ts
+  let ts := whereSep false 0 0 false ts
   let ts := runRule ruleEmpty ts
   let ts := runRule rulePipe ts
   let ts := closureSep 0 0 noTok ts
-  let ts := runRule ruleSemi ts
+  let ts := semiSep [] {} false false 1 0 noTok ts
   let ts := runRule ruleBlock ts
   let ts := runRule ruleComma ts
   let ts := onlyIf cfg.parens (runRule ruleParen) ts
